@@ -44,6 +44,15 @@ type gl struct {
 	yieldT  string // Lean element type when translating an iter.Seq closure
 	curFunc string
 	lits    []string
+	// reader methods (see readerMethod)
+	rdKind    string                      // "" | "bytes" | "lines"
+	rdRecv    string                      // receiver name
+	rdField   string                      // receiver field holding the bufio.Reader / bufio.Scanner
+	rdLabel   string                      // label of the ReadByte loop
+	rdState   string                      // Lean term for the reader state handed back with every result
+	structLoc map[types.Object][]string   // struct-pointer locals -> field names
+	nScan     int
+	rdLoopVar string
 	funcs   map[string]*glFunc
 	order   []string
 }
@@ -88,6 +97,9 @@ func (g *gl) leanType(t types.Type) string {
 	case *types.Map:
 		return "List (" + g.leanType(u.Key()) + " × " + g.leanType(u.Elem()) + ")"
 	}
+	if isErr(t) {
+		return "GoErr"
+	}
 	g.die(nil, "type "+t.String())
 	return ""
 }
@@ -120,6 +132,43 @@ func (g *gl) zero(t types.Type) string {
 	}
 	g.die(nil, "zero of "+t.String())
 	return ""
+}
+
+func isErr(t types.Type) bool {
+	n, ok := t.(*types.Named)
+	return ok && n.Obj().Pkg() == nil && n.Obj().Name() == "error"
+}
+
+// receiver-field method call r.<field>.<method>() of the reader being translated
+func (g *gl) rdCall(e ast.Expr) string {
+	c, ok := e.(*ast.CallExpr)
+	if !ok || g.rdKind == "" {
+		return ""
+	}
+	sel, ok := c.Fun.(*ast.SelectorExpr)
+	if !ok {
+		return ""
+	}
+	inner, ok := sel.X.(*ast.SelectorExpr)
+	if !ok {
+		return ""
+	}
+	id, ok := inner.X.(*ast.Ident)
+	if !ok || id.Name != g.rdRecv || inner.Sel.Name != g.rdField {
+		return ""
+	}
+	return sel.Sel.Name
+}
+
+// bareZero strips the outer parentheses (and a type ascription) of a zero value used after `: T :=`
+func bareZero(z string) string {
+	if strings.HasPrefix(z, "(List.replicate") {
+		return strings.TrimSuffix(strings.TrimPrefix(z, "("), ")")
+	}
+	if strings.HasPrefix(z, "(") && strings.Contains(z, " : ") {
+		return strings.TrimPrefix(z[:strings.Index(z, " : ")], "(")
+	}
+	return z
 }
 
 func isByte(t types.Type) bool {
@@ -237,11 +286,46 @@ func (g *gl) expr(e ast.Expr) ex {
 	if c, ok := g.constant(e); ok {
 		return c
 	}
+	if tv, ok := g.info.Types[e]; ok && g.rdKind != "" {
+		if tv.IsNil() {
+			if id, isId := e.(*ast.Ident); isId && id.Name == "nil" {
+				// nil as an error or as a record pointer: decided by the context (see errExpr / returns)
+				return atomE("GoErr.nil")
+			}
+		}
+	}
+	switch m := g.rdCall(e); m {
+	case "Err":
+		return atomE("(scanErr ending)")
+	case "Bytes":
+		return atomE("cur")
+	case "":
+	default:
+		g.die(e, "reader method "+m+" in expression position")
+	}
 	switch v := e.(type) {
 	case *ast.ParenExpr:
 		return g.expr(v.X)
 	case *ast.Ident:
 		return g.ident(v)
+	case *ast.SelectorExpr:
+		if id, ok := v.X.(*ast.Ident); ok {
+			if fs, ok := g.structLoc[g.objOf(id)]; ok {
+				for _, f := range fs {
+					if f == v.Sel.Name {
+						return atomE(id.Name + "_" + f)
+					}
+				}
+			}
+			if pn, ok := g.info.Uses[id].(*types.PkgName); ok && pn.Imported().Path() == "io" {
+				switch v.Sel.Name {
+				case "EOF":
+					return atomE("GoErr.eof")
+				case "ErrUnexpectedEOF":
+					return atomE("GoErr.other")
+				}
+			}
+		}
 	case *ast.IndexExpr:
 		xt := g.typeOf(v.X)
 		if m, ok := xt.Underlying().(*types.Map); ok {
@@ -325,6 +409,9 @@ func (g *gl) binary(v *ast.BinaryExpr) ex {
 			return ex{text: "shrInt " + l.arg() + " " + r.arg(), act: true}
 		}
 	case token.EQL, token.NEQ, token.LSS, token.LEQ, token.GTR, token.GEQ:
+		if isErr(lt) && (v.Op == token.EQL || v.Op == token.NEQ) {
+			return infix(map[token.Token]string{token.EQL: "==", token.NEQ: "!="}[v.Op])
+		}
 		if isList(lt) && (v.Op == token.EQL || v.Op == token.NEQ) {
 			return infix(map[token.Token]string{token.EQL: "==", token.NEQ: "!="}[v.Op])
 		}
@@ -427,6 +514,15 @@ func (g *gl) call(c *ast.CallExpr) ex {
 				if pn.Imported().Path() == "bytes" && f.Sel.Name == "Compare" && len(c.Args) == 2 {
 					return ex{text: "cmp " + g.expr(c.Args[0]).arg() + " " + g.expr(c.Args[1]).arg()}
 				}
+				if pn.Imported().Path() == "slices" && f.Sel.Name == "Clone" && len(c.Args) == 1 {
+					return g.expr(c.Args[0]) // values are immutable here
+				}
+				if pn.Imported().Path() == "bytes" && f.Sel.Name == "HasPrefix" && len(c.Args) == 2 {
+					return ex{text: "List.isPrefixOf " + g.expr(c.Args[1]).arg() + " " + g.expr(c.Args[0]).arg()}
+				}
+				if pn.Imported().Path() == "fmt" && f.Sel.Name == "Errorf" && g.rdKind != "" {
+					return atomE("GoErr.other") // the message is not modelled
+				}
 				if pn.Imported().Path() == "strings" && f.Sel.Name == "ContainsAny" && len(c.Args) == 2 {
 					return ex{text: "containsAny " + g.expr(c.Args[0]).arg() + " " + g.expr(c.Args[1]).arg()}
 				}
@@ -482,6 +578,18 @@ func bindText(kw, name string, rhs ex) string {
 
 func (g *gl) assignTo(w *wr, lhs ast.Expr, tok token.Token, rhs ast.Expr) {
 	opOf := map[token.Token]token.Token{token.ADD_ASSIGN: token.ADD, token.SUB_ASSIGN: token.SUB, token.OR_ASSIGN: token.OR}
+	if se, ok := lhs.(*ast.SelectorExpr); ok {
+		// field of a struct-pointer local: a variable of its own
+		e := g.expr(se)
+		var r ex
+		if tok == token.ASSIGN {
+			r = g.expr(rhs)
+		} else {
+			g.die(lhs, "assignment operator on a field")
+		}
+		w.line(bindText("", e.text, r))
+		return
+	}
 	switch l := lhs.(type) {
 	case *ast.Ident:
 		if l.Name == "_" {
@@ -528,6 +636,20 @@ func (g *gl) stmt(w *wr, s ast.Stmt) {
 				g.die(v, "multi-value :=")
 			}
 			id := v.Lhs[0].(*ast.Ident)
+			if u, ok := v.Rhs[0].(*ast.UnaryExpr); ok && u.Op == token.AND && g.rdKind != "" {
+				if cl, ok := u.X.(*ast.CompositeLit); ok && len(cl.Elts) == 0 {
+					if st, ok := g.typeOf(cl).Underlying().(*types.Struct); ok {
+						var fs []string
+						for i := 0; i < st.NumFields(); i++ {
+							f := st.Field(i)
+							fs = append(fs, f.Name())
+							w.line("let mut " + id.Name + "_" + f.Name() + " : " + g.leanType(f.Type()) + " := " + bareZero(g.zero(f.Type())))
+						}
+						g.structLoc[g.objOf(id)] = fs
+						return
+					}
+				}
+			}
 			kw := "let "
 			ann := ""
 			if g.mut[g.objOf(id)] {
@@ -556,8 +678,23 @@ func (g *gl) stmt(w *wr, s ast.Stmt) {
 			return
 		}
 	case *ast.IncDecStmt:
+	case *ast.LabeledStmt:
+		if g.rdKind == "bytes" {
+			g.rdLabel = v.Label.Name
+			g.stmt(w, v.Stmt)
+			return
+		}
+	case *ast.BranchStmt:
+		if g.rdKind == "bytes" && v.Tok == token.BREAK && v.Label != nil && v.Label.Name == g.rdLabel {
+			w.line("broke := true")
+			w.line("break")
+			return
+		}
 	case *ast.DeclStmt:
 		gd, ok := v.Decl.(*ast.GenDecl)
+		if ok && gd.Tok == token.CONST {
+			return // local constants are folded by go/types wherever they are used
+		}
 		if ok && gd.Tok == token.VAR {
 			for _, sp := range gd.Specs {
 				vs := sp.(*ast.ValueSpec)
@@ -566,9 +703,14 @@ func (g *gl) stmt(w *wr, s ast.Stmt) {
 				}
 				for _, n := range vs.Names {
 					t := g.info.Defs[n].Type()
-					z := g.zero(t)
-					z = strings.TrimSuffix(strings.TrimPrefix(z, "("), ")")
-					w.line("let mut " + n.Name + " : " + g.leanType(t) + " := " + z)
+					if isErr(t) {
+						w.line("let mut " + n.Name + " := GoErr.nil")
+						continue
+					}
+					if g.rdKind == "bytes" && n.Name == g.rdLoopVar {
+						continue // bound by the `for … in src` that replaces the ReadByte loop
+					}
+					w.line("let mut " + n.Name + " : " + g.leanType(t) + " := " + bareZero(g.zero(t)))
 				}
 			}
 			return
@@ -576,6 +718,10 @@ func (g *gl) stmt(w *wr, s ast.Stmt) {
 	case *ast.ExprStmt:
 		if isPanic(v) {
 			w.line("(none : Option Unit)")
+			return
+		}
+		if g.rdKind == "bytes" && g.rdCall(v.X) == "UnreadByte" {
+			w.line("pos := pos - 1")
 			return
 		}
 		if c, ok := v.X.(*ast.CallExpr); ok {
@@ -600,6 +746,37 @@ func (g *gl) stmt(w *wr, s ast.Stmt) {
 			}
 		}
 	case *ast.ReturnStmt:
+		if g.rdKind != "" && len(v.Results) == 2 {
+			var rec string
+			switch r := v.Results[0].(type) {
+			case *ast.Ident:
+				if r.Name == "nil" {
+					rec = "none"
+				} else if fs, ok := g.structLoc[g.objOf(r)]; ok {
+					var parts []string
+					for _, f := range fs {
+						parts = append(parts, r.Name+"_"+f)
+					}
+					rec = "some (" + strings.Join(parts, ", ") + ")"
+				}
+			case *ast.UnaryExpr:
+				if cl, ok := r.X.(*ast.CompositeLit); ok && r.Op == token.AND {
+					var parts []string
+					for _, el := range cl.Elts {
+						if _, isKV := el.(*ast.KeyValueExpr); isKV {
+							g.die(el, "keyed struct literal")
+						}
+						parts = append(parts, g.expr(el).opnd())
+					}
+					rec = "some (" + strings.Join(parts, ", ") + ")"
+				}
+			}
+			if rec == "" {
+				g.die(v, "returned record")
+			}
+			w.line("return ((" + rec + ", " + g.expr(v.Results[1]).opnd() + "), " + g.rdState + ")")
+			return
+		}
 		if g.yieldT != "" {
 			if len(v.Results) == 0 {
 				w.line("return log")
@@ -660,7 +837,16 @@ func (g *gl) ifStmt(w *wr, v *ast.IfStmt, kw string) {
 			}
 		}
 	}
-	w.line(kw + g.expr(v.Cond).opnd() + " then")
+	if u, ok := v.Cond.(*ast.UnaryExpr); ok && u.Op == token.NOT && g.rdKind == "lines" && g.rdCall(u.X) == "Scan" && kw == "if " {
+		k := g.nScan
+		g.nScan++
+		w.line(fmt.Sprintf("let (ok%d, cur%d, lines%d) := scan cur lines", k, k, k))
+		w.line(fmt.Sprintf("cur := cur%d", k))
+		w.line(fmt.Sprintf("lines := lines%d", k))
+		w.line(fmt.Sprintf("if !ok%d then", k))
+	} else {
+		w.line(kw + g.expr(v.Cond).opnd() + " then")
+	}
 	w.ind++
 	g.block(w, v.Body.List)
 	w.ind--
@@ -718,7 +904,52 @@ func (g *gl) switchStmt(w *wr, v *ast.SwitchStmt) {
 	}
 }
 
+// for b, err = r.r.ReadByte(); err == nil; b, err = r.r.ReadByte() { … }
+func (g *gl) readByteLoop(w *wr, v *ast.ForStmt) bool {
+	hdr := func(s ast.Stmt) (string, string, bool) {
+		a, ok := s.(*ast.AssignStmt)
+		if !ok || a.Tok != token.ASSIGN || len(a.Lhs) != 2 || len(a.Rhs) != 1 || g.rdCall(a.Rhs[0]) != "ReadByte" {
+			return "", "", false
+		}
+		b, ok1 := a.Lhs[0].(*ast.Ident)
+		e, ok2 := a.Lhs[1].(*ast.Ident)
+		if !ok1 || !ok2 {
+			return "", "", false
+		}
+		return b.Name, e.Name, true
+	}
+	if g.rdKind != "bytes" || v.Init == nil || v.Post == nil {
+		return false
+	}
+	b1, e1, ok1 := hdr(v.Init)
+	b2, e2, ok2 := hdr(v.Post)
+	c, ok3 := v.Cond.(*ast.BinaryExpr)
+	if !ok1 || !ok2 || !ok3 || b1 != b2 || e1 != e2 || c.Op != token.EQL {
+		return false
+	}
+	cx, okx := c.X.(*ast.Ident)
+	cy, oky := c.Y.(*ast.Ident)
+	if !okx || !oky || cx.Name != e1 || cy.Name != "nil" {
+		return false
+	}
+	w.line("let mut pos : Nat := 0")
+	w.line("let mut broke := false")
+	w.line("for " + b1 + " in src do")
+	w.ind++
+	w.line("pos := pos + 1")
+	g.block(w, v.Body.List)
+	w.ind--
+	w.line("if !broke then")
+	w.ind++
+	w.line(e1 + " := endErr ending")
+	w.ind--
+	return true
+}
+
 func (g *gl) forStmt(w *wr, v *ast.ForStmt) {
+	if g.readByteLoop(w, v) {
+		return
+	}
 	// for i := A; i < B; i++ / i += c      and      for i := E; i >= 0; i--
 	init, ok := v.Init.(*ast.AssignStmt)
 	if !ok || init.Tok != token.DEFINE || len(init.Lhs) != 1 {
@@ -977,6 +1208,66 @@ func (g *gl) function(name, rel, placeholder string) {
 	})
 }
 
+// readerMethod translates the `read` method of a format reader whose only state is a
+// bufio.Reader used through ReadByte/UnreadByte (kind "bytes": the function takes the
+// remaining input bytes and how the source ends, and hands back the unread rest) or a
+// bufio.Scanner with the default line splitter (kind "lines": remaining tokens instead).
+// The result is ((record or none, error), remaining input).
+func (g *gl) readerMethod(lname, recvType, method, field, kind, rel, recT, placeholder string) {
+	g.guarded(lname, placeholder, func() (string, []string) {
+		var fd *ast.FuncDecl
+		file := ""
+		for _, f := range g.files {
+			for _, d := range f.Decls {
+				if x, ok := d.(*ast.FuncDecl); ok && x.Name.Name == method && x.Recv != nil && len(x.Recv.List) == 1 && len(x.Recv.List[0].Names) == 1 {
+					if st, ok := x.Recv.List[0].Type.(*ast.StarExpr); ok {
+						if id, ok := st.X.(*ast.Ident); ok && id.Name == recvType {
+							fd, file = x, filepath.Base(g.fset.Position(x.Pos()).Filename)
+						}
+					}
+				}
+			}
+		}
+		if fd == nil || fd.Body == nil {
+			g.die(nil, "method not found")
+		}
+		g.findMutated(fd.Body)
+		g.yieldT, g.curFunc, g.lits = "", lname, nil
+		g.rdKind, g.rdRecv, g.rdField, g.rdLabel, g.nScan = kind, fd.Recv.List[0].Names[0].Name, field, "", 0
+		g.structLoc = map[types.Object][]string{}
+		defer func() { g.rdKind, g.curFunc = "", "" }()
+		g.rdLoopVar = ""
+		ast.Inspect(fd.Body, func(n ast.Node) bool {
+			if f, ok := n.(*ast.ForStmt); ok && f.Init != nil {
+				if a, ok := f.Init.(*ast.AssignStmt); ok && len(a.Lhs) == 2 && len(a.Rhs) == 1 && g.rdCall(a.Rhs[0]) == "ReadByte" {
+					if id, ok := a.Lhs[0].(*ast.Ident); ok {
+						g.rdLoopVar = id.Name
+					}
+				}
+			}
+			return true
+		})
+		w := &wr{b: &bytes.Buffer{}, ind: 1}
+		params := "(src : List UInt8) (ending : Ending)"
+		stT := "List UInt8"
+		g.rdState = "src.drop pos"
+		if kind == "lines" {
+			params = "(lines : List (List UInt8)) (ending : Ending)"
+			stT = "List (List UInt8)"
+			g.rdState = "lines"
+			w.line("let mut lines := lines")
+			w.line("let mut cur : List UInt8 := []")
+		}
+		g.block(w, fd.Body.List)
+		if len(g.globals) != 0 {
+			g.die(fd, "reader method uses package-level variables")
+		}
+		text := fmt.Sprintf("def %s_Found : Bool := true\n/-- translated from (*%s).%s in %s/%s; the bufio state is the remaining input -/\ndef %s %s : Option ((Option (%s) × GoErr) × %s) := do\n%s",
+			lname, recvType, method, rel, file, lname, params, recT, stT, w.b.String())
+		return text, nil
+	})
+}
+
 // an init function: the package-level variables it assigns become its result
 func (g *gl) initFunc(nth int, rel, placeholder string) {
 	name := fmt.Sprintf("init_%d", nth)
@@ -1161,7 +1452,7 @@ func goLean(repo, out string) {
 	fmt.Fprintln(w, "-- GENERATED by harness/cmd/translate -go from the Go source text of /repo on every run. Do not edit.")
 	fmt.Fprintln(w, "import Bio.Model.GoRt")
 	fmt.Fprintln(w, "namespace Bio.Generated.GoSrc")
-	fmt.Fprintln(w, "open Bio.GoRt")
+	fmt.Fprintln(w, "open Bio Bio.GoRt")
 	fmt.Fprintln(w)
 	g := loadPkg(filepath.Join(repo, "sequtil"))
 	const B, BB = "List UInt8", "List (List UInt8)"
@@ -1190,6 +1481,15 @@ func goLean(repo, out string) {
 		w.WriteString(g2.funcs[n].text)
 		w.WriteString("\n")
 	}
+	// formats/fasta and formats/fastq: the `read` methods (one record from the remaining input)
+	g3 := loadPkg(filepath.Join(repo, "formats", "fasta"))
+	g3.readerMethod("fasta_read", "reader", "read", "r", "bytes", "formats/fasta", B+" × "+B,
+		"def fasta_read (src : "+B+") (ending : Ending) : Option ((Option ("+B+" × "+B+") × GoErr) × "+B+") := none")
+	w.WriteString(g3.funcs["fasta_read"].text + "\n")
+	g4 := loadPkg(filepath.Join(repo, "formats", "fastq"))
+	g4.readerMethod("fastq_read", "reader", "read", "s", "lines", "formats/fastq", B+" × "+B+" × "+B,
+		"def fastq_read (lines : "+BB+") (ending : Ending) : Option ((Option ("+B+" × "+B+" × "+B+") × GoErr) × "+BB+") := none")
+	w.WriteString(g4.funcs["fastq_read"].text + "\n")
 	fmt.Fprintln(w, "end Bio.Generated.GoSrc")
 	os.Remove(out)
 	if err := os.WriteFile(out, w.Bytes(), 0o644); err != nil {
